@@ -20,6 +20,7 @@ import json
 import os
 import re
 import shutil
+import sys
 import tempfile
 import threading
 from typing import Any
@@ -27,14 +28,19 @@ from typing import Any
 from . import client as cl
 from . import linq_eval as le
 from . import vloop
-from .core import Streams, mix, small_stack
+from .core import Streams, crash_at, crash_exception, mix, small_stack
 
 ENGINE_VERSION = 1
 _ADDR = re.compile(r"0x[0-9a-fA-F]+")
 RULE = ("one case = one seeded history (<=48 ops over <=4 fake datasets: derive by string / fresh AST / "
         "shared AST object / Python call site, MetaData, QMetaData, terminals, failing derives, "
         "rebinding, source touches, sync and concurrent executions with latency/error/stall/"
-        "cancel/timeout plans) run under one seeded schedule of the virtual-time loop; "
+        "cancel/timeout plans; crash points = an asynchronous exception at the k-th library line "
+        "of a builder op, a look-up or a value() call; object lifetime = streams dropped, "
+        "collections forced, call sites in notebook cells / helper functions, id() numbers of "
+        "dead objects re-used inside the package; re-entrancy = executors, type callbacks and "
+        "captured objects that use the library while the outer operation is in progress) "
+        "run under one seeded schedule of the virtual-time loop; "
         "non-trivial = the run fired at least one fault, or completed executions out of start "
         "order, or rebound a captured name, or reused a shared AST object, or issued consecutive "
         "QMetaData calls; distinct = different SHA-1 of (op-kind sequence + schedule trace)")
@@ -44,7 +50,9 @@ COMPONENTS_REAL = ["func_adl (all modules, imported from the working tree)",
 COMPONENTS_STUB = ["event-loop clock and selector (SimLoop: virtual time, seeded ready-handle pick)",
                    "ThreadPoolExecutor inside make_it_sync (SimThreadPool: start+join)",
                    "back ends (FakeDataset peers / override executors with planned latency, "
-                   "error, stall)", "source disk in the quick tier (linecache entry, mtime None)"]
+                   "error, stall)", "source disk in the quick tier (linecache entry, mtime None)",
+                   "id() as seen by the package's own modules (SimId: numbers of dead objects are "
+                   "handed to new ones by the PRNG; only in runs with the lifetime fault family)"]
 ASSUMPTIONS = [
     "executors never mutate the AST they receive",
     "ast.dump (fields only) is the observation of a query AST",
@@ -52,15 +60,21 @@ ASSUMPTIONS = [
     "thread pre-emption inside library code is not explored (no property asks for it)",
 ]
 REQUIRED_PROBES = {
-    "C11": ["probe_failed_derive", "derive_shared", "empty_metadata_made", "exec_sync"],
+    "C11": ["probe_failed_derive", "derive_shared", "empty_metadata_made", "exec_sync",
+            "fault_crash_point_fired", "probe_lifetime_stream_object_died",
+            "fault_reentrant_executor_observe", "streams_derived_inside_an_executor"],
     "C12": ["probe_completion_order_differs_from_start_order", "fault_multi_thread_block",
             "probe_threads_completed_out_of_issue_order",
             "probe_same_stream_executed_concurrently", "probe_two_root_query",
-            "probe_rootless_query", "fault_stall_then_cancel", "result_exc"],
-    "C16": ["probe_qmetadata_twice_in_a_row", "qmd_repeated_key", "c16_backend_checks"],
+            "probe_rootless_query", "fault_stall_then_cancel", "result_exc",
+            "fault_crash_point_in_value", "calls_nested_in_an_executor",
+            "fault_lifetime_id_reused"],
+    "C16": ["probe_qmetadata_twice_in_a_row", "qmd_repeated_key", "c16_backend_checks",
+            "fault_crash_point_in_lookup", "plain_lookups"],
     "C04": ["probe_site_reinvoked_after_rebinding", "site_blocked_calls",
             "c04_executor_lambda_checks", "c04_multi_generator_sites",
-            "c04_def_function_sites"],
+            "c04_def_function_sites", "fault_lifetime_site_in_fresh_cell",
+            "fault_reentrant_capture", "fault_crash_point_fired"],
 }
 LAT = [0.0, 0.001, 1.0, 60.0, 3600.0]
 KEYS = ["k0", "k1", "k2", "K0", "title", "never"]
@@ -168,6 +182,9 @@ TYPED = [
     ("Select", "lambda e: e.jets().Select(lambda j: j.eta()).First() + 1"),
 ]
 FAIL_KINDS = ["where_nonbool", "missing_arg", "cb_raise", "bad_lambda"]
+# failures INSIDE a nested stream-method call that the type follower makes for a lambda nested in
+# the lambda it is following (own PRNG stream, see FAULT_KINDS2)
+NESTED_FAIL_KINDS = ["nested_where_nonbool", "nested_cb_raise", "nested_bad_lambda"]
 TERMS = ["pandas", "awkward", "root", "parquet"]
 FAULT_KINDS = [
     "exec_error", "stall_cancel", "cancel", "timeout", "sync_in_loop", "derive_fail",
@@ -175,6 +192,10 @@ FAULT_KINDS = [
     "threads", "capture_fault", "small_stack", "caller_interrupt", "caller_edit",
     "backend_helpers",
 ]
+
+# fault kinds added later draw from their own PRNG sub-stream ("faults2"), so that the cases of
+# runs that do not enable them are exactly what they were before
+FAULT_KINDS2 = ["crash_point", "lifetime", "reentrancy"]
 
 SAMPLES = [
     le.Rec(
@@ -435,10 +456,12 @@ def generate(prop: str, seed: int, tier: str = "quick", fault_free: bool = False
     st = Streams(mix(seed, "forest", prop))
     w, f, c = st.get("workload"), st.get("faults"), st.get("config")
     # swarm: enabled fault kinds are themselves drawn
+    x = st.get("faults2")
     if fault_free:
         faults = []
     else:
         faults = [k for k in FAULT_KINDS if f.random() < 0.6]
+        faults += [k for k in FAULT_KINDS2 if x.random() < 0.5]
     # swarm: most runs are short and small; a few are BIG (long histories, many datasets, deep
     # chains, many calls in flight) so that nothing silently depends on the small configuration
     big = (not fault_free) and c.random() < (0.02 if tier == "thorough" else 0.004)
@@ -468,6 +491,10 @@ def generate(prop: str, seed: int, tier: str = "quick", fault_free: bool = False
         "big": big,
         "live_cap": 48 if big else 24,
     }
+    if not fault_free:
+        # how often the checker itself looks keys up between operations (all streams and keys
+        # after every step / a random third of the streams / only at the end of the history)
+        config["observe"] = x.choice(["all", "all", "all", "sparse", "sparse", "final"])
     weights = dict(PROFILES[prop])
     if "derive_fail" not in faults:
         weights["fail"] = 0
@@ -639,6 +666,15 @@ def generate(prop: str, seed: int, tier: str = "quick", fault_free: bool = False
                              "override": ("override" in faults and w.random() < 0.15)}
                             for _ in range(w.randint(1, 3))])
             ops.append({"op": "mt_block", "threads": ths})
+    ops = ops[:(400 if big else 48)]
+    if "derive_fail" in faults and any(d["typed"] >= 0 for d in datasets):
+        ops = _add_nested_failures(st.get("faults3"), ops)
+    if "reentrancy" in faults:
+        ops = _add_reentrancy(st.get("faults5"), ops, config, prop)
+    if "lifetime" in faults:
+        ops = _add_lifetime(st.get("faults4"), ops, config["sites"], prop)
+    if "crash_point" in faults:
+        ops = _add_crash_points(x, ops)
     return {
         "property": prop,
         "engine": "forest",
@@ -646,8 +682,132 @@ def generate(prop: str, seed: int, tier: str = "quick", fault_free: bool = False
         "seed": seed,
         "sched_seed": mix(seed, "sched"),
         "config": config,
-        "ops": ops[:(400 if big else 48)],
+        "ops": ops,
     }
+
+
+def _add_nested_failures(x, ops):
+    "Some failing derives fail inside a nested stream-method call of the type follower."
+    return [{**op, "kind": x.choice(NESTED_FAIL_KINDS)}
+            if op["op"] == "derive_fail" and x.random() < 0.4 else op for op in ops]
+
+
+REENT_SITES = [
+    ("Select", "lambda e: e.a + REENT.val", []),
+    ("Select", "lambda e: e.jets.Select(lambda j: j.pt + REENT.val)", []),
+    ("Select", "lambda e: e.a * G0 + REENT.val", ["G0"]),
+    ("Where", "lambda e: e.a > REENT.val - K0.A", ["K0.A"]),
+    ("Select", "lambda G0: G0.b + REENT.val", []),
+]
+
+
+def _add_reentrancy(x, ops, config, prop):
+    """Fault family "re-entrancy" (post-pass, own PRNG stream): user code that the library calls
+    uses the library while the outer operation is still in progress - an executor that looks at
+    every live stream, derives, or executes another stream before it answers; type callbacks
+    that look metadata up, hash and derive; a captured object whose property makes another
+    call site run in the middle of the capture step."""
+    for d in config["datasets"]:
+        if d["typed"] in (1, 3) and x.random() < 0.5:
+            d["typed"] = 4
+    if prop == "C04" or x.random() < 0.3:
+        for i, s in enumerate(config["sites"]):
+            if not s.get("boom") and x.random() < 0.2:
+                op_, lam, free = x.choice(REENT_SITES)
+                config["sites"][i] = {"op": op_, "lam": lam, "free": list(free), "shadow": None,
+                                      "reent": x.randrange(64)}
+    out = []
+    for op in ops:
+        if op["op"] in ("exec_sync", "spawn") and x.random() < 0.3:
+            acts = []
+            for _ in range(x.randint(1, 3)):
+                a = x.choice(["observe", "observe", "derive", "exec", "exec_sync"])
+                acts.append([a, x.randrange(64), x.randrange(64)])
+            op = {**op, "reenter": acts}
+        out.append(op)
+    return out
+
+
+def _add_lifetime(x, ops, sites, prop):
+    """Fault family "object lifetime" (post-pass, own PRNG stream): streams are dropped (their
+    nodes die and the addresses are re-used), collections are forced, the same operation is
+    repeated in a create-use-drop loop (`for cut in cuts: ds.Where(lambda e: e.pt > cut).value()`),
+    call sites live in notebook cells (short-lived code objects) or in helper functions (fresh
+    closure cells per call)."""
+    for s in sites:
+        if s.get("boom") or s.get("supply"):
+            continue
+        if s.get("scope") == "module":
+            s["cell"] = x.random() < 0.6
+        elif "scope" not in s and x.random() < 0.35:
+            s["scope"] = "param"
+    out = []
+    for op in ops:
+        out.append(op)
+        k = op["op"]
+        if k == "derive" and "stack" not in op and x.random() < 0.25:
+            # the loop idiom: the stream just made is used (maybe), dropped, and the same call
+            # is made again - often with a rebinding in between
+            for _ in range(x.randint(1, 4)):
+                if x.random() < 0.3:
+                    out.append({"op": "exec_sync", "stream": -1, "titled": True, "override": False,
+                                "plan": ["ok", 0.0, "token"]})
+                out.append({"op": "drop", "stream": -1, "gc": x.random() < 0.3})
+                if x.random() < 0.5 and (prop == "C04" or op["mode"] == "site"):
+                    name = x.choice(cl.ALL_NAMES)
+                    out.append({"op": "rebind", "name": name, "value": _gen_value(x, name, False)})
+                again = dict(op)
+                if x.random() < 0.4:
+                    again["lam"] = x.randrange(64)
+                out.append(again)
+        elif k in ("spawn", "exec_sync") and x.random() < 0.3:
+            # use, (maybe fail,) let go, build anew, use: what was left behind for the dead
+            # stream must not be found by a new one that happens to live at its address
+            out.append({"op": "sleep", "dt": x.choice([0.0, 1.0, 4000.0, 4000.0])})
+            out.append({"op": "drop", "stream": op["stream"], "live_index": True,
+                        "gc": x.random() < 0.5, "all": x.random() < 0.5})
+            for _ in range(x.randint(1, 4)):
+                out.append({"op": "derive", "parent": x.randrange(64), "lam": x.randrange(64),
+                            "mode": "str"})
+                out.append({"op": "exec_sync", "stream": -1, "titled": True, "override": False,
+                            "plan": ["ok", 0.0, "token"]})
+        elif k in ("derive", "md", "qmd", "term", "exec_sync", "sleep") and x.random() < 0.12:
+            out.append({"op": "drop", "stream": x.randrange(64), "gc": x.random() < 0.5,
+                        "all": x.random() < 0.2})
+    return out
+
+
+def _add_crash_points(x, ops):
+    """Fault "crash at an arbitrary point" (post-pass, own PRNG stream): an asynchronous
+    exception - KeyboardInterrupt, MemoryError, or a BaseException that no `except Exception`
+    sees - lands at the k-th line the library executes inside a builder operation or a
+    value()/value_async() call.  A crashed builder op is often retried at once (what a user
+    does after Ctrl-C): the retry is an ordinary operation and judged like one."""
+    out = []
+    for op in ops:
+        k = op["op"]
+        if k == "qmd" and op["md"] and x.random() < 0.25:
+            # a look-up of a key just set, hit by the exception part-way; often asked again
+            out.append(op)
+            key = x.choice(sorted(op["md"]))
+            out.append({"op": "lookup_deep", "stream": -1, "key": key,
+                        "crash": [int(2 ** x.uniform(0, 6)), x.choice(["keyboard", "memory", "abort"])]})
+            if x.random() < 0.5:
+                out.append({"op": "lookup_deep", "stream": -1, "key": key})
+            continue
+        if k in ("derive", "md", "qmd", "term", "open_ds") and "stack" not in op and x.random() < 0.14:
+            op = {**op, "crash": [int(2 ** x.uniform(0, 9.5)), x.choice(["keyboard", "memory", "abort"])]}
+            out.append(op)
+            if x.random() < 0.5:
+                out.append({kk: v for kk, v in op.items() if kk != "crash"})
+            continue
+        if k == "lookup_deep" and x.random() < 0.4:
+            op = {**op, "crash": [int(2 ** x.uniform(0, 6)), x.choice(["keyboard", "memory", "abort"])]}
+        if k in ("exec_sync", "spawn") and "stack" not in op and not op.get("interrupt") \
+                and x.random() < 0.2:
+            op = {**op, "crash": [int(2 ** x.uniform(0, 7.5)), x.choice(["keyboard", "memory", "abort"])]}
+        out.append(op)
+    return out
 
 
 # ---------------------------------------------------------------------------------------------
@@ -741,6 +901,7 @@ def sdig(s: str) -> str:
 
 
 CURRENT_CALL = contextvars.ContextVar("verif_current_call", default=None)
+CURRENT_CRASH = contextvars.ContextVar("verif_current_crash", default=None)
 
 
 class Token:
@@ -821,6 +982,7 @@ class Forest:
         self.oracles = set(case.get("oracles") or [self.prop])
         self.world = vloop.World(Streams(case["sched_seed"]).get("schedule"),
                                  step_cap=self.cfg.get("step_cap", 20000))
+        self.obs_rng = Streams(case["sched_seed"]).get("observe")
         self.events = []  # compact history; its digest is the determinism fingerprint
         self.stats = {}
         self.live = []
@@ -832,6 +994,7 @@ class Forest:
         self.tmpdir = None
         self.sync_block = 0.0
         self.by_id = {}
+        self.pending = None  # a violation noticed inside re-entrant user code
         self.issued = []
         self.n_issued = 0
         self.cur_id = -1
@@ -888,6 +1051,18 @@ class Forest:
 
         if getattr(self, "stack_window", None) is not None:
             self.stack_window.restore()  # harness code runs with the normal stack
+        cp = CURRENT_CRASH.get()
+        if cp is not None:
+            cp.paused += 1  # the back end's own use of the library is not the crashed operation
+        try:
+            return await self._peer_exec(peer, self_obj, a, title, nosleep)
+        finally:
+            if cp is not None:
+                cp.paused -= 1
+
+    async def _peer_exec(self, peer, self_obj, a, title, nosleep=False):
+        from func_adl import find_EventDataset
+
         self.exec_starts += 1
         # attribution: the call whose coroutine / thread (transitively) started this executor;
         # titles may repeat between calls, so they are only a fallback
@@ -936,6 +1111,9 @@ class Forest:
                         simplify_chained_calls().visit(b)
                 except Exception:
                     self.stat("backend_helper_raised")
+        if call.get("reenter") and self.world.mt is None:
+            for act in call["reenter"]:
+                await self.reenter(act, call, nosleep)
         if call.get("interrupt") and not call.get("interrupt_sent"):
             # fault: the thread that is blocked in value() right now is interrupted (what SIGINT
             # does to a waiting main thread); this executor stays busy until the simulator lets
@@ -968,6 +1146,61 @@ class Forest:
             call["end_t"] = self.world.now
             self.ev("exec_end", peer, title)
             self.end_order.append(call["no"])
+
+    async def reenter(self, act, outer, nosleep):
+        """Re-entrancy: the executor of `outer` uses the library before it answers.  What it
+        sees and makes is judged like anything else; a violation is kept until the simulator's
+        main line is reached (the library in between may swallow or re-wrap exceptions)."""
+        kind, i, j = act
+        self.stat(f"fault_reentrant_executor_{kind}")
+        saved = self.last_op
+        try:
+            if kind == "observe":
+                self.last_op = "execute"
+                self.check_all()
+            elif kind == "derive":
+                m = self.live[i % len(self.live)]
+                pk, src = self.cfg["pool"][j % len(self.cfg["pool"])]
+                new, ex = self.builder(lambda: getattr(m.stream, pk)(src))
+                if ex is None:
+                    twin = None
+                    if "C16" in self.oracles and m.twin is not None:
+                        twin, _ = self.builder(lambda: getattr(m.twin, pk)(src))
+                    m2 = self.add_stream(new, m.root, m, pk, twin=twin, lam_rec=None)
+                    self.check_root(new, m2.root, "derive")
+                    self.stat("streams_derived_inside_an_executor")
+            elif kind in ("exec", "exec_sync") and not (nosleep and kind == "exec"):
+                m = self.live[i % len(self.live)]
+                c2 = self.new_call(m, ["ok", 0.0, "token"], False,
+                                   "sync" if kind == "exec_sync" else "async", None)
+                c2["nested_in"] = outer["no"]
+                c2["may_cancel"] = True  # whatever ends the outer call early ends this one too
+                if kind == "exec_sync":
+                    ctx = contextvars.copy_context()
+                    ctx.run(self.run_sync, c2)
+                else:
+                    loop = asyncio.get_running_loop()
+                    t = loop.create_task(self.one(c2), name=f"call-{c2['no']}")
+                    if loop is getattr(self, "main_loop", None):
+                        # judged by the main line if the outer call does not get that far
+                        c2["task"] = t
+                        c2["op_id"] = -1 - c2["no"]
+                        self.tasks.append(c2)
+                    try:
+                        await asyncio.shield(t)
+                    except asyncio.CancelledError:
+                        # the outer call is being cancelled (`one` records and swallows what
+                        # hits the nested call, so the request must be passed on by hand)
+                        t.cancel()
+                        raise
+                self.stat("calls_nested_in_an_executor")
+                self.check_call(c2)
+                c2["checked"] = True
+        except Violation as v:
+            if self.pending is None:
+                self.pending = v
+        finally:
+            self.last_op = saved
 
     def make_override(self, k):
         async def ov(a, title=None):
@@ -1033,6 +1266,12 @@ class Forest:
             self.stat(f"runs_with_logging_{lvl}")
         zoo.setup()
         self.zoo = zoo
+        self.simid = None
+        if "lifetime" in self.cfg.get("faults", []):
+            from .simid import SimId
+
+            self.simid = SimId(Streams(self.case["sched_seed"]).get("simid"))
+            self.simid.install()
         self.datasets = {}
         self.orphans = []
         self.end_order = []
@@ -1055,6 +1294,12 @@ class Forest:
                                        real_dir=real_dir)
 
     def teardown(self):
+        if getattr(self, "simid", None) is not None:
+            self.simid.uninstall()
+            if self.simid.asked:
+                self.stat("simid_numbers_asked_by_library", self.simid.asked)
+            if self.simid.reused:
+                self.stat("fault_lifetime_id_reused", self.simid.reused)
         try:
             self.client.close()
         except Exception:
@@ -1146,7 +1391,13 @@ class Forest:
         if "C16" in self.oracles:
             from func_adl.ast.meta_data import lookup_query_metadata
 
+            # looking a key up is itself an operation of the history (it may fill caches or
+            # indices inside the library): runs differ in how often the checker looks
+            obs = self.cfg.get("observe", "all")
+            final = getattr(self, "final_check", False)
             for m in self.live:
+                if not final and (obs == "final" or (obs == "sparse" and self.obs_rng.random() < 0.7)):
+                    continue
                 for k in KEYS:
                     got = lookup_query_metadata(m.stream, k)
                     exp = m.md.get(k)
@@ -1201,7 +1452,38 @@ class Forest:
         "Run a builder op; no executor may start inside it (C12 oracle 1)."
         n0 = self.exec_starts
         extra, self.derive_stack = getattr(self, "derive_stack", None), None
+        crash, self.derive_crash = getattr(self, "derive_crash", None), None
+        self.last_crashed = False
         try:
+            if crash:
+                # fault: an asynchronous exception surfaces at the k-th line the library
+                # executes in this operation (only the first builder call of the op, not its twin)
+                cp = crash_at(crash[0], crash_exception(crash[1], "in a builder"))
+                self.stat("fault_crash_point_armed")
+                try:
+                    with cp:
+                        r = fn()
+                except BaseException as ex:
+                    if ex is not cp.exc:
+                        if cp.fired:  # the library turned it into something else
+                            self.stat("crash_point_rewrapped")
+                            self.last_crashed = True
+                            self.ev("crash_point", "builder", "rewrapped", type(ex).__name__)
+                            return None, ex
+                        raise
+                    self.stat("fault_crash_point_fired")
+                    self.stat(f"fault_crash_point_{crash[1]}")
+                    self.last_crashed = True
+                    self.ev("crash_point", "builder", crash[0])
+                    return None, ex
+                if cp.fired:
+                    # swallowed on the way: what the call returned is not judged and not kept
+                    self.stat("crash_point_swallowed")
+                    self.last_crashed = True
+                    self.ev("crash_point", "builder", "swallowed")
+                    return None, RuntimeError("injected crash swallowed")
+                self.ev("crash_point", "builder", "not-reached")
+                return r, None
             if extra:  # only the first builder call of the op (not its twin) runs in the window
                 self.stat("fault_small_stack_derive")
                 with small_stack(extra):
@@ -1232,10 +1514,12 @@ class Forest:
 
     def op_derive(self, op):
         self.derive_stack = op.get("stack")
+        self.derive_crash = op.get("crash")
         try:
             return self._op_derive(op)
         finally:
             self.derive_stack = None
+            self.derive_crash = None
 
     def _op_derive(self, op):
         parent = self.ref(op, "parent")
@@ -1273,8 +1557,51 @@ class Forest:
         self.check_root(new, m.root, "derive")
 
     def derive_site(self, parent, k):
+        site = self.cfg["sites"][k]
+        if site.get("cell") and site.get("scope") == "module" and not site.get("supply") \
+                and not site.get("boom"):
+            # object lifetime: the site lives in short-lived code (a notebook cell typed again);
+            # its code objects die when the call is over
+            fns = self.client.cell(k)
+            self.cell_fns = fns[:2]
+            self.stat("fault_lifetime_site_in_fresh_cell")
+            try:
+                return self._derive_site(parent, k)
+            finally:
+                self.cell_fns = None
+                fns[2]()
+                del fns
+        return self._derive_site(parent, k)
+
+    def reent_hook(self, root_m, pick):
+        "Runs inside the library's capture step of an outer site (see _derive_site)."
+        sites = self.cfg["sites"]
+        ks = [k for k in range(len(sites)) if sites[k].get("reent") is None
+              and not sites[k].get("boom") and self.client.usable(k)]
+        if not ks:
+            return
+        k2 = ks[pick % len(ks)]
+        self.reent_depth = 1
+        saved = self.last_op, self.last_crashed
+        self.stat("fault_reentrant_capture")
+        self.ev("reent_capture", k2)
+        try:
+            self.derive_site(root_m, k2)
+        except Violation as v:
+            if self.pending is None:
+                self.pending = v
+        finally:
+            self.reent_depth = 0
+            self.last_op, self.last_crashed = saved
+
+    def _site_fns(self, k):
+        return getattr(self, "cell_fns", None) or self.client.fns[k][:2]
+
+    def _derive_site(self, parent, k):
         c = self.client
         site = self.cfg["sites"][k]
+        if site.get("scope") == "param" and not site.get("supply"):
+            self.stat("fault_lifetime_site_in_helper_function")
         if not c.usable(k) and ("C04" not in self.oracles or site.get("boom")):
             self.stat("site_skipped_unbound")
             return
@@ -1289,7 +1616,7 @@ class Forest:
             # THAT name the property leaves open (it may fail); if it returns a stream, every
             # captured name that does have a value must still have been replaced
             unbound = [n for n in site["free"] if not c.bound[n]]
-            new, ex = self.builder(lambda: c.fns[k][0](parent.stream))
+            new, ex = self.builder(lambda: self._site_fns(k)[0](parent.stream))
             self.stat("site_invoked_with_unbound_name")
             self.ev("site_unbound", k, type(ex).__name__ if ex else "returned")
             self.last_op = "failed-derive"
@@ -1303,7 +1630,7 @@ class Forest:
                                                   "unbound_at_call": unbound})
             return
         blocked = c.blocked_by(k)
-        site_fn, ref_fn = c.fns[k][0], c.fns[k][1]
+        site_fn, ref_fn = self._site_fns(k)
         if site.get("boom"):
             new, ex = self.builder(lambda: site_fn(parent.stream))
             self.stat("fault_capture_step_raised")
@@ -1319,9 +1646,24 @@ class Forest:
             le.reset_budget()
             refs = [le.outcome(rf, s) for s in SAMPLES]
         overflow_ok = bool(getattr(self, "derive_stack", None))
-        new, ex = self.builder(lambda: site_fn(parent.stream))
+        hooked = (site.get("reent") is not None and not getattr(self, "reent_depth", 0)
+                  and not overflow_ok and not getattr(self, "derive_crash", None))
+        if hooked:
+            # re-entrancy: reading the captured object's property makes ANOTHER call site run, in
+            # the middle of this site's capture step
+            root_m = next(x for x in self.live if x.root == parent.root and x.made_by in ("root", "dataset"))
+            c.mod._reent_hook[0] = lambda: self.reent_hook(root_m, site["reent"])
+        try:
+            new, ex = self.builder(lambda: site_fn(parent.stream))
+        finally:
+            if hooked:
+                c.mod._reent_hook[0] = None
         if overflow_ok and isinstance(ex, RecursionError):
             self.ev("site_overflow", k)
+            self.last_op = "failed-derive"
+            return
+        if self.last_crashed:
+            self.ev("site_crashed", k)
             self.last_op = "failed-derive"
             return
         self.site_calls[k] = self.site_calls.get(k, 0) + 1
@@ -1408,6 +1750,7 @@ class Forest:
         parent = self.ref(op, "parent")
         self.last_op = "metadata-empty" if not op["md"] else "metadata"
         given = dict(op["md"])
+        self.derive_crash = op.get("crash")
         new, ex = self.builder(lambda: parent.stream.MetaData(given))
         if op.get("edit_after"):
             self.stat("fault_caller_edits_argument_afterwards")
@@ -1429,6 +1772,7 @@ class Forest:
         if parent.made_by == "QMetaData":
             self.stat("probe_qmetadata_twice_in_a_row")
         self.derive_stack = op.get("stack")
+        self.derive_crash = op.get("crash")
         given = {k: qvalue(v) for k, v in op["md"].items()}  # the caller's own dict object
         decoded = dict(given)
         try:
@@ -1443,7 +1787,7 @@ class Forest:
             given["k2" if "k2" not in given else "k1"] = "added-by-caller-later"
         if ex is not None:
             self.stat("derive_raised")
-            if "C16" in self.oracles and not op.get("stack"):
+            if "C16" in self.oracles and not op.get("stack") and not self.last_crashed:
                 # nothing about a dict of values gives QMetaData a reason to fail
                 raise Violation("C16/lookup/qmetadata-raised",
                                 {"md": repr(decoded)[:200], "exc": repr(ex)[:200],
@@ -1470,6 +1814,7 @@ class Forest:
         idx = len(self.datasets)
         t = self.zoo.EVT[op["typed"]] if op.get("typed", -1) >= 0 else None
         cls = self.WrappedDataset if op.get("wrapped") else self.FakeDataset
+        self.derive_crash = op.get("crash")
         ds, ex = self.builder(lambda: cls(idx, t, op.get("extra")))
         if ex is not None:
             self.stat("derive_raised")
@@ -1485,14 +1830,35 @@ class Forest:
 
         m = self.ref(op, "stream")
         self.last_op = "lookup-deep"
-        self.stat("fault_small_stack_lookup")
-        try:
-            with small_stack(op["stack"]):
-                got = lookup_query_metadata(m.stream, op["key"])
-        except RecursionError:
-            self.stat("lookup_overflows")
-            self.ev("lookup_overflow", m.idx)
-            return
+        if op.get("crash"):
+            # the look-up is hit by an asynchronous exception at its k-th line instead
+            cp = crash_at(op["crash"][0], crash_exception(op["crash"][1], "in a look-up"))
+            self.stat("fault_crash_point_armed")
+            try:
+                with cp:
+                    got = lookup_query_metadata(m.stream, op["key"])
+            except BaseException as ex:
+                if ex is not cp.exc:
+                    raise
+                self.stat("fault_crash_point_fired")
+                self.stat("fault_crash_point_in_lookup")
+                self.ev("crash_point", "lookup", m.idx)
+                return
+            if cp.fired:
+                self.stat("crash_point_swallowed")
+                return
+        elif op.get("stack"):
+            self.stat("fault_small_stack_lookup")
+            try:
+                with small_stack(op["stack"]):
+                    got = lookup_query_metadata(m.stream, op["key"])
+            except RecursionError:
+                self.stat("lookup_overflows")
+                self.ev("lookup_overflow", m.idx)
+                return
+        else:  # an ordinary look-up made by the program at this point of the history
+            self.stat("plain_lookups")
+            got = lookup_query_metadata(m.stream, op["key"])
         exp = m.md.get(op["key"])
         self.ev("lookup_deep", m.idx, op["key"], repr(got))
         if "C16" in self.oracles and not same_qvalue(got, exp):
@@ -1501,7 +1867,7 @@ class Forest:
             raise Violation(f"C16/lookup/{sub}",
                             {"stream": m.idx, "key": op["key"], "got": repr(got),
                              "expected": repr(exp), "after": "lookup with few frames left",
-                             "frames": op["stack"]})
+                             "frames": op.get("stack")})
 
     def op_term(self, op):
         parent = self.ref(op, "parent")
@@ -1526,6 +1892,7 @@ class Forest:
             return s.AsParquetFiles("f.parquet", cols)
 
         given = list(op["cols"]) if isinstance(op["cols"], list) else op["cols"]
+        self.derive_crash = op.get("crash")
         new, ex = self.builder(lambda: mk(parent.stream, given))
         if op.get("edit_after") and isinstance(given, list):
             self.stat("fault_caller_edits_argument_afterwards")
@@ -1560,6 +1927,16 @@ class Forest:
             self.zoo.FAULT["cb_raise"] = True
             fn = lambda: parent.stream.Select(  # noqa: E731
                 self.shared[k] if "fsq" in self.cfg["pool"][k][1] else "lambda e: fsq(e.met())")
+        elif kind in NESTED_FAIL_KINDS:
+            if not typed or parent.made_by not in ("root", "dataset", "Where", "MetaData", "QMetaData"):
+                return
+            src = {"nested_where_nonbool": "lambda e: e.jets().Where(lambda j: j.pt())",
+                   "nested_cb_raise": "lambda e: e.jets().Select(lambda j: j.eta())",
+                   "nested_bad_lambda": "lambda e: e.jets().Select(lambda j, k: j.pt())"}[kind]
+            if kind == "nested_cb_raise":
+                self.zoo.FAULT["cb_raise"] = "jet"  # only the callbacks of the nested item class
+            arg = src if op["lam"] % 2 else self.parse_lambda(src)
+            fn = lambda: parent.stream.Select(arg)  # noqa: E731
         else:
             fn = lambda: parent.stream.Select("lambda e, f: e")  # noqa: E731
         try:
@@ -1576,6 +1953,53 @@ class Forest:
         self.stat("probe_failed_derive")
         self.stat(f"fault_derive_fail_{kind}")
         self.ev("derive_fail", kind, type(ex).__name__)
+
+    def op_drop(self, op):
+        """Object lifetime: the program lets go of a stream - or of all it can (a loop variable
+        overwritten, a notebook cell re-run).  Its own nodes die - at once, or at the next
+        collection when they sit in a cycle - and their addresses are re-used by whatever is
+        built next.  Streams with an execution still in flight, dataset roots and streams that
+        callbacks keep stay."""
+        import gc
+        import weakref
+
+        cands = [m for m in self.live if m.made_by not in ("root", "dataset")
+                 and not any(c["m"] is m for c in self.calls)]
+        gone = []
+        if cands and op.get("all"):
+            gone = cands
+        elif cands:
+            r = op["stream"]
+            if isinstance(r, dict):
+                m = self.by_id.get(r.get("ref"))
+            elif op.get("live_index"):  # the very stream an earlier op named by this index
+                m = self.live[r % len(self.live)]
+            elif r == -1:
+                m = self.live[-1]
+            else:
+                m = cands[r % len(cands)]
+            if m is not None and m in cands:
+                self.cur_resolved["stream"] = {"ref": m.op_id}
+                gone = [m]
+            m = None
+        died = []
+        wrs = []
+        for m in gone:
+            self.live.remove(m)
+            self.by_id.pop(m.op_id, None)
+            self.stat("fault_lifetime_stream_dropped")
+            self.ev("drop", m.idx)
+            wrs.append(weakref.ref(m.stream, lambda _r: died.append(1)))
+        n = len(gone)
+        m = cands = gone = None
+        if op.get("gc"):
+            gc.collect()
+            self.stat("lifetime_gc_collect")
+        # reach: did the objects really die (nothing in the harness holds on to them)?
+        self.stat("probe_lifetime_stream_object_died", len(died))
+        if n - len(died):
+            self.stat("lifetime_stream_still_referenced", n - len(died))
+        self.last_op = "drop"
 
     def op_rebind(self, op):
         self.last_op = "rebind"
@@ -1718,12 +2142,22 @@ class Forest:
         prev = self.sync_call
         if not mt:
             self.sync_call = call
+        cp = call.get("crash_point") if not mt else None
+        tok2 = None
+        if cp is not None:
+            self.stat("fault_crash_point_armed")
+            tok2 = CURRENT_CRASH.set(cp)
+            self.world.crash = cp  # armed on make_sync's worker thread
         try:
             r = self.invoke(call, call["m"].stream.value)
             call["res"] = ("ret", r)
         except BaseException as e:
             call["res"] = self.classify_exc(call, e)
         finally:
+            if cp is not None:
+                self.world.crash = None
+                CURRENT_CRASH.reset(tok2)
+                self.note_crash(call, cp)
             CURRENT_CALL.reset(tok)
             if call.get("interrupt_sent"):
                 self.finish_abandoned(call)
@@ -1733,9 +2167,30 @@ class Forest:
             call["done_t"] = self.world.now
         self.ev("call_done", call["no"], call["res"][0])
 
+    def arm_crash(self, op, call):
+        c = op.get("crash")
+        if c and self.world.mt is None:
+            kind = c[1]
+            if call["via"] != "sync" and kind == "keyboard":
+                kind = "abort"  # a KeyboardInterrupt inside a task tears the whole loop down
+            call["crash_point"] = crash_at(c[0], crash_exception(kind, f"in call {call['no']}"))
+            call["crash_kind"] = kind
+
+    def note_crash(self, call, cp):
+        if cp.fired:
+            self.stat("fault_crash_point_fired")
+            self.stat(f"fault_crash_point_{call['crash_kind']}")
+            self.stat("fault_crash_point_in_value")
+            call["crashed"] = True
+            self.ev("crash_point", "call", call["no"], cp.k)
+        else:
+            self.ev("crash_point", "call", call["no"], "not-reached")
+
     def arm_backend(self, op, call):
         if op.get("backend"):
             call["backend"] = op["backend"]
+        if op.get("reenter"):
+            call["reenter"] = op["reenter"]
 
     def arm_interrupt(self, op, call):
         if op.get("interrupt") and self.world.mt is None:
@@ -1758,6 +2213,13 @@ class Forest:
                 return
             self.expectations(call)
             CURRENT_CALL.set(call)  # this task's own context
+            cp = call.get("crash_point")
+            if cp is not None:
+                # lines are counted only while this call's own task is running
+                self.stat("fault_crash_point_armed")
+                CURRENT_CRASH.set(cp)
+                cp.active = lambda: CURRENT_CALL.get() is call
+                sys.settrace(cp.tracer)
             coro = self.invoke(call, call["m"].stream.value_async)
             if call["timeout"] is not None:
                 r = await asyncio.wait_for(coro, call["timeout"])
@@ -1766,6 +2228,12 @@ class Forest:
             call["res"] = ("ret", r)
         except BaseException as e:
             call["res"] = self.classify_exc(call, e)
+        finally:
+            cp = call.get("crash_point")
+            if cp is not None and call["via"] != "sync":
+                if sys.gettrace() == cp.tracer:
+                    sys.settrace(None)
+                self.note_crash(call, cp)
         call["done_t"] = self.world.now
         self.ev("call_done", call["no"], call["res"][0])
 
@@ -1786,6 +2254,7 @@ class Forest:
         call = self.new_call(m, op["plan"], op["override"], "sync", None, titled=op["titled"])
         self.arm_interrupt(op, call)
         self.arm_backend(op, call)
+        self.arm_crash(op, call)
         n0 = self.exec_starts
         if op.get("stack"):
             # resource fault: the library runs with few frames left; a deep recursion overflows
@@ -1810,7 +2279,8 @@ class Forest:
         else:
             self.run_sync(call)
         self.stat("exec_sync")
-        if call["title"] is None and "C12" in self.oracles and self.exec_starts - n0 != len(call["starts"]):
+        if call["title"] is None and "C12" in self.oracles and not call.get("reenter") \
+                and self.exec_starts - n0 != len(call["starts"]):
             raise Violation("C12/route", {"what": "untitled call: executor starts not attributable"})
         self.check_call(call)
 
@@ -1824,6 +2294,7 @@ class Forest:
         if op["via"] == "sync":
             self.arm_interrupt(op, call)
         self.arm_backend(op, call)
+        self.arm_crash(op, call)
         t = loop.create_task(self.one(call), name=f"call-{call['no']}")
         call["task"] = t
         call["op_id"] = self.cur_id
@@ -1894,6 +2365,8 @@ class Forest:
 
     def check_call(self, call):
         "Per-call oracles over the recorded history (C12, C16/backend, C04 at the executor)."
+        if call.get("judged"):
+            return
         res = call["res"]
         st = call["starts"]
         plan = call["plan"]
@@ -1909,12 +2382,18 @@ class Forest:
                 raise Violation("C12/count", {"call": call["no"], "starts": len(st),
                                               "what": "interrupted caller"})
             res = call["res"] = ("interrupted",)
+        crashed = False
+        if call.get("crashed") and res[0] == "exc" and res[1] is call["crash_point"].exc:
+            # the call itself was hit by the injected asynchronous exception: it has no result,
+            # and its executor ran at most once (before or after the point of the crash)
+            self.stat("result_call_crashed")
+            crashed = True
         self.stat(f"result_{res[0]}")
         m = call["m"]
         if "C12" in self.oracles:
             if len(st) > 1:
                 raise Violation("C12/count", {"call": call["no"], "starts": len(st)})
-            if len(st) == 0 and res[0] in ("ret", "exc"):
+            if len(st) == 0 and res[0] in ("ret", "exc") and not crashed:
                 raise Violation("C12/count", {"call": call["no"], "starts": 0, "res": res[0],
                                               "exc": repr(res[1])[:200]})
             if st:
@@ -1940,6 +2419,8 @@ class Forest:
                         and type(res[1]) is type(call["ret"])):
                     raise Violation("C12/result", {"call": call["no"], "got": repr(res[1])[:80],
                                                    "plan": plan[2]})
+            elif res[0] == "exc" and crashed:
+                pass
             elif res[0] == "exc":
                 if plan[0] != "error" or res[1] is not call["err"]:
                     raise Violation("C12/exception", {"call": call["no"], "plan": plan[0],
@@ -1973,6 +2454,18 @@ class Forest:
                 if rec is not None:
                     self.check_lambda_still(rec, g, "executor", m.idx)
                     self.stat("c04_executor_lambda_checks")
+        # a judged call keeps nothing alive (the stream may be dropped later in the history):
+        # no stream, no received AST, no traceback (its frames hold the stream), no task
+        call["judged"] = True
+        call["m"] = None
+        for h in st:
+            h["ast"] = None
+        for e in (call.get("err"), res[1] if len(res) > 1 else None,
+                  getattr(call.get("crash_point"), "exc", None)):
+            if isinstance(e, BaseException):
+                e.__traceback__ = None
+        if call.get("task") is not None and call["task"].done():
+            call["task"] = None
 
     def sync_block_total(self):
         return self.sync_block
@@ -1980,6 +2473,7 @@ class Forest:
     # -- main ---------------------------------------------------------------------------------
     async def main(self):
         loop = asyncio.get_running_loop()
+        self.main_loop = loop
         self.tasks = []
         self.shared_uses = {}
         self.site_calls = {}
@@ -2026,7 +2520,11 @@ class Forest:
                 self.op_rootless(op)
             elif k == "mt_block":
                 self.op_mt(op)
+            elif k == "drop":
+                self.op_drop(op)
             self.resolved.append({**op, "id": self.cur_id, **self.cur_resolved})
+            if self.pending is not None:
+                raise self.pending
             self.check_all()
             # calls that completed meanwhile are checked as soon as the history has them
             while checked < len(self.tasks) and self.tasks[checked]["res"] is not None:
@@ -2035,16 +2533,19 @@ class Forest:
                 checked += 1
         await self.drain()
         self.last_op = "execute" if self.calls else self.last_op
+        if self.pending is not None:
+            raise self.pending
+        self.final_check = True
         self.check_all()
 
     async def drain(self):
-        pend = [c["task"] for c in self.tasks if not c["task"].done()]
+        pend = [c["task"] for c in self.tasks if c["task"] is not None and not c["task"].done()]
         if pend:
             self.stat("drains_with_pending")
             await asyncio.wait(pend)
         for c in self.tasks:
             if not c.get("checked"):
-                if c["res"] is None and c["task"].done():
+                if c["res"] is None and c["task"] is not None and c["task"].done():
                     # task finished without running `one` at all: cancelled before first step
                     c["res"] = ("cancelled",)
                     self.stat("probe_cancelled_before_first_step")
@@ -2147,6 +2648,15 @@ def op_simplifications(op):
         out.append({**op, "mode": "str"})
     if op["op"] == "sleep" and op["dt"] != 0.0:
         out.append({**op, "dt": 0.0})
+    if op.get("crash"):
+        out.append({k: v for k, v in op.items() if k != "crash"})
+    if op["op"] == "drop":
+        if op.get("gc"):
+            out.append({**op, "gc": False})
+        if op.get("all"):
+            out.append({**op, "all": False})
+    if op.get("backend"):
+        out.append({**op, "backend": False})
     return out
 
 
